@@ -131,6 +131,28 @@ def run_mc(work, module, cfg, workers, timeout, mc, extra_env=None, want_output=
     return []
 
 
+def run_apalache(work, module, obligations, timeout=900):
+    """Discharge inductive-invariant obligations with Apalache (unbounded complement of a TLC model).
+    obligations: list of (init, inv, length).  A failure is a defect of the specification (exit 2)."""
+    d = os.path.join(work, "apalache-" + module)
+    os.makedirs(d, exist_ok=True)
+    done = []
+    for init, inv, length in obligations:
+        t0 = time.time()
+        cmd = ["apalache-mc", "check", "--init=" + init, "--inv=" + inv, "--length=%d" % length, "--out-dir=" + d,
+               os.path.join(SPEC, module + ".tla")]
+        try:
+            p = run(cmd, timeout=timeout, cwd=d)
+        except subprocess.TimeoutExpired:
+            raise ToolError("Apalache timed out on %s: %s => %s" % (module, init, inv))
+        if "The outcome is: NoError" not in p.stdout:
+            sys.stdout.write(p.stdout[-3000:])
+            raise ToolError("Apalache does not discharge %s: init %s, invariant %s, length %d" % (module, init, inv, length))
+        done.append({"module": module, "init": init, "inv": inv, "length": length, "wall_s": round(time.time() - t0, 1)})
+    shutil.rmtree(d, ignore_errors=True)
+    return done
+
+
 def run_vh(work, args, out_name, timeout, threads="2"):
     """Run the harness; returns (path, exit_code). Exit 3 = watchdog fired (a `timeout` event was written)."""
     out = os.path.join(work, out_name)
